@@ -30,6 +30,9 @@ pub enum E {
     /// addressed to another port of the own clock (a sibling port's exchange on a shared segment)
     RSibling(u8),
     FSibling(u8),
+    /// Announce of a lower-numbered port of the own clock (two ports of one boundary clock on the
+    /// segment): makes a healthy port passive
+    OwnClockAnnounce,
     /// master-role stimuli (must stay silent while faulty)
     AnnounceTimer,
     SyncTimer,
@@ -95,6 +98,12 @@ pub fn run_case(rep: &mut Report, case: &Case, verbose: bool) {
     b.p2p = true;
     b.seed = case.seed;
     b.rec_reply = ReplyMode::EchoDelay;
+    // a configured delay asymmetry cancels in the mean link delay (it is subtracted on the way
+    // out and added on the way in): the expected value does not contain it
+    if case.seed % 3 == 0 {
+        b.asymmetry_units = [250i128 << 32, -(700i128 << 32), 1i128 << 44, -(3i128 << 30)][(case.seed / 3 % 4) as usize];
+        rep.ev("port_with_delay_asymmetry");
+    }
     if case.kalman {
         b.filter = Some(FilterCfg::Kalman(Default::default()));
     }
@@ -134,6 +143,7 @@ pub fn run_case(rep: &mut Report, case: &Case, verbose: bool) {
     let mut rxs: Vec<Rx> = vec![];
     let mut pending: Vec<(usize, TimestampContext)> = vec![];
     let mut pending_sync: Vec<TimestampContext> = vec![];
+    let mut own_ann_seq = 0u16;
     let mut seen = rec.as_ref().map(|r| r.lock().unwrap().events.len()).unwrap_or(0);
     let mut clock_now = base;
     let clock = node.clock.clone();
@@ -203,6 +213,17 @@ pub fn run_case(rep: &mut Report, case: &Case, verbose: bool) {
                     let m = resp_src[x].pdelay_resp_fu(r.seq, t, sibling, rand_corr(&mut rng));
                     Some(Call::GeneralRx(m.encode()))
                 }
+            }
+            E::OwnClockAnnounce => {
+                let src = Src::new(own.clock, own.port.wrapping_sub(1));
+                own_ann_seq = own_ann_seq.wrapping_add(1);
+                let mut body = AnnounceBody::default();
+                body.gm_identity = own.clock;
+                body.gm_priority1 = 128;
+                body.gm_priority2 = 128;
+                body.gm_class = 248;
+                rep.ev("announce_from_lower_port_of_own_clock");
+                Some(Call::GeneralRx(src.announce(own_ann_seq, body).encode()))
             }
             E::XSync => {
                 if pending_sync.is_empty() {
@@ -382,6 +403,7 @@ pub fn run_case(rep: &mut Report, case: &Case, verbose: bool) {
                     let route = match ev {
                         E::AnnounceReceipt => "announce-receipt-timer",
                         E::Bmca => "bmca",
+                        E::OwnClockAnnounce => "announce-from-own-clock",
                         _ => "other",
                     };
                     rep.violation(&format!("C14|faulty-exit|{route}"), &format!("step {step} ({ev:?}): port left Faulty for {} without a completed single-responder exchange", state_name(state_after)), replay.clone());
@@ -412,7 +434,7 @@ fn alphabet() -> Vec<E> {
 
 pub fn run(rep: &mut Report, tier: &str, seed: u64, shard: (u32, u32), replay: Option<&str>) {
     rep.rule = "event scripts on a P2P port in each start state (Listening/Master/Slave/Passive, later Faulty): every sequence up to a length bound over {tx timestamp, Resp_A, FU_A, Resp_B, FU_B} after each of two consecutive requests is enumerated (one-/two-step per responder), plus seeded scripts with old-request responses, other-requester responses and master-role stimuli; unique timestamps per (request, responder); distinct = distinct (script, parameters); non-trivial = a peer-delay measurement or a Faulty transition occurred".into();
-    rep.require(&["peer_delay_measurement", "entered_faulty", "left_faulty", "recovered_single_responder", "call_while_faulty", "two_responders_current_request", "start_Listening", "start_Master", "start_Slave", "start_Passive", "pdelay_message_addressed_to_sibling_port"]);
+    rep.require(&["peer_delay_measurement", "entered_faulty", "left_faulty", "recovered_single_responder", "call_while_faulty", "two_responders_current_request", "start_Listening", "start_Master", "start_Slave", "start_Passive", "pdelay_message_addressed_to_sibling_port", "port_with_delay_asymmetry", "announce_from_lower_port_of_own_clock"]);
     if let Some(path) = replay {
         let v: serde_json::Value = serde_json::from_str(&std::fs::read_to_string(path).unwrap()).unwrap();
         if let Ok(c) = serde_json::from_value::<Case>(v["case"].clone()) {
@@ -507,8 +529,24 @@ pub fn run(rep: &mut Report, tier: &str, seed: u64, shard: (u32, u32), replay: O
             }
         }
     }
+    // a faulty port hears another port of its own clock
+    if shard.0 == 0 {
+        let variants: [&[E]; 4] = [
+            &[E::T, E::X, E::R(0), E::R(1), E::OwnClockAnnounce, E::AnnounceTimer, E::SyncTimer, E::Bmca, E::AnnounceTimer, E::T, E::X, E::R(0), E::F(0)],
+            &[E::OwnClockAnnounce, E::T, E::X, E::R(0), E::R(1), E::Bmca, E::Bmca, E::SyncTimer, E::T, E::X, E::R(0), E::F(0)],
+            &[E::T, E::X, E::R(1), E::R(0), E::OwnClockAnnounce, E::Bmca, E::Bmca, E::Bmca, E::AnnounceTimer, E::T, E::X, E::R(0), E::F(0)],
+            &[E::T, E::R(0), E::F(0), E::R(1), E::OwnClockAnnounce, E::OwnClockAnnounce, E::Bmca, E::AnnounceReceipt, E::T, E::X, E::R(0), E::F(0)],
+        ];
+        for (vi, v) in variants.iter().enumerate() {
+            for k in 0..16u64 {
+                let case = Case { seed: seed.wrapping_add(9500 + 16 * vi as u64 + k), script: v.to_vec(), two_step: [k & 1 == 0, k & 2 == 0], start_state: (k / 4 % 4) as u8, base_kind: (k % 4) as u8, kalman: false, slave_only: false };
+                count(rep, &case);
+                enumerated += 1;
+            }
+        }
+    }
     rep.extra.insert("enumerated_scripts".into(), json!(enumerated));
-    let full = [E::T, E::X, E::R(0), E::F(0), E::R(1), E::F(1), E::ROld(0), E::FOld(1), E::ROld(1), E::ROther, E::RSibling(0), E::FSibling(0), E::FSibling(1), E::AnnounceTimer, E::SyncTimer, E::SyncTimer, E::XSync, E::DelayReq, E::AnnounceReceipt, E::Bmca, E::T, E::X, E::R(0), E::F(0)];
+    let full = [E::T, E::X, E::R(0), E::F(0), E::R(1), E::F(1), E::ROld(0), E::FOld(1), E::ROld(1), E::ROther, E::RSibling(0), E::FSibling(0), E::FSibling(1), E::OwnClockAnnounce, E::AnnounceTimer, E::SyncTimer, E::SyncTimer, E::XSync, E::DelayReq, E::AnnounceReceipt, E::Bmca, E::T, E::X, E::R(0), E::F(0)];
     let n: u64 = if tier == "thorough" { 400_000 } else { 60_000 };
     let budget = Budget::new(n, if tier == "thorough" { 600.0 } else { 15.0 });
     let mut i = 0;
